@@ -198,6 +198,10 @@ func commitsIn(l *hist.Layout, evIdx []int, n int) int {
 type AttemptSpec struct {
 	Fault  Fault
 	Pacing int
+	// Seek > 0: before this attempt the caller repositions the streamer with SetBinlogPosition to the end
+	// label of its (Seek-1)-th accepted transaction (Seek = 1: the start position), clamped to what has been
+	// accepted; the attempt must ask for exactly that position and deliver the history from there
+	Seek int `json:",omitempty"`
 }
 
 // FaultCase is a C04 scenario: failing attempts followed by a clean one.
@@ -205,6 +209,8 @@ type FaultCase struct {
 	H        *hist.History
 	StartIdx int
 	Attempts []AttemptSpec
+	// FinalSeek: AttemptSpec.Seek of the final, fault-free attempt
+	FinalSeek int `json:",omitempty"`
 }
 
 var errInjected = errors.New("injected handler failure")
